@@ -113,7 +113,8 @@ class Interpolator:
         else:
             self.xs = (np.array(fls),)
 
-            # Output values.
+            # Output values, in flight level order like the coordinates.
+            df = df.sort_values('fl')
             self.tas = df.tas.values
             self.rocd = df.rocd.values
             self.fuel_flow = df.fuel_flow.values
